@@ -263,6 +263,35 @@ def gen_wrong(rng, n):
     return out
 
 
+def gen_headless(rng, n):
+    """C01: a frame cut after ':' and a few body bytes (read timeout), then a line WITHOUT ':' that would be a valid
+    body for the request: no complete frame was ever received, nothing may be accepted.  Within one call (the retries
+    follow immediately) and across two calls on one object."""
+    out = []
+    for i in range(n):
+        kind = rng.choice(KINDS + ["devid"])
+        addr = rand_addr(rng) if kind != "devid" else 0
+        value = rng.bytes(rng.choice([1, 2, 4]))
+        good = get_resp(addr, value) if kind != "devid" else done_resp(le(0xA056, 2))
+        cut = 1 + rng.below(len(good) - 2)              # ':' plus at least ... bytes, never the whole frame
+        head, body = good[:cut], good[1:]               # body: everything after ':' incl. the newline
+        tail_variants = [body, good[cut:], body[:-1] + b"\r\n"]
+        tail = tail_variants[i % 3]
+        if i % 2 == 0:   # one call: attempt 1 sees the head and a timeout, attempt 2 the colon-less line, then silence
+            react = [[ev_data(head), "e"], [ev_data(tail)]] + [[] for _ in range(6)]
+            out.append(Case("headless", [call(kind, addr, "n")], react=react, cfg=rng.below(4)))
+        else:            # two calls on one object, the second one right after the first (busy line)
+            k1 = "ping" if rng.chance(1, 3) else kind
+            if k1 == "ping":
+                react = [[ev_data(head), "e"], [ev_data(tail)]] + [[] for _ in range(7)]
+            elif kind == "devid":
+                react = [[ev_data(head), "e"], [ev_data(tail)]] + [[] for _ in range(7)]
+            else:
+                react = [[ev_data(head), "e"]] + [[] for _ in range(7)] + [[ev_data(tail)]] + [[] for _ in range(7)]
+            out.append(Case("headless-2calls", [call(k1, addr, "n"), call(kind, addr, "b")], react=react, cfg=rng.below(4)))
+    return out
+
+
 def gen_flags_all(rng):
     """every flag byte 0x00..0xFF for one exchange per accessor (C01 flag 0; C05 flags 1,2,4)"""
     out = []
@@ -618,6 +647,7 @@ def generate(tier, seed):
     cases += gen_mutations(rng, bases, attempts=(1, 2, 8), per_base=None)
     cases += gen_wrong(rng, 3000 if q else 12000)
     cases += gen_flags_all(rng)
+    cases += gen_headless(rng, 240 if q else 1200)
     cases += gen_c05(rng, 30 if q else 120)
     cases += gen_c04(rng, 3 if q else 4, 1500 if q else 8000)
     cases += gen_bursts(rng, 800 if q else 4000)
